@@ -16,8 +16,10 @@ for d in sorted(glob.glob('/verif/seeded/*/')):
     name = os.path.basename(d.rstrip('/'))
     if sel and not any(name.startswith(s) for s in sel):
         continue
+    if os.environ.get('SKIP_BEFORE') and name < os.environ['SKIP_BEFORE']:
+        continue
     meta = json.load(open(d + 'meta.json'))
-    ids = [meta['property']] + EXTRA.get(name, [])
+    ids = [meta['property']] + ([] if os.environ.get('NOEXTRA') else EXTRA.get(name, []))
     out = subprocess.run(['/verif/tools/try_seeded.sh', d + 'patch.diff', tier] + ids, capture_output=True, text=True, env=dict(os.environ, TRY_OUT='/tmp/try_' + name))
     for line in out.stdout.splitlines():
         m = re.match(r'(C\d+) exit=(\d+) violations_printed=(\d+) wall=(\d+)s :: (.*)', line)
